@@ -22,7 +22,17 @@ import json
 import os
 from concurrent.futures import ThreadPoolExecutor
 
+import threading
+
 LEVEL = "model_checking"
+_WD_LOCK = threading.Lock()
+
+
+def _tlc(ctx, cfg, files, **kw):
+    """ctx.tlc from worker threads (Ctx.spec_workdir numbers its directories by listing the scratch dir: serialise it)."""
+    with _WD_LOCK:
+        wd = ctx.spec_workdir("Deployment", files)
+    return ctx.tlc("Deployment", "MC_Deployment", cfg, workdir=wd, **kw)
 ALL_FIXES = ("A", "B", "C", "D", "E", "F")
 KINDS = ("deploy", "undeploy", "uall", "use")
 LOCALN = "__LOCAL__"
@@ -94,8 +104,6 @@ def scenarios(ctx):
     add("one-4", one, 4, _all(["a"]), mode="mc")
     add("wrap-4", wrap2, 4, _all(["i", "o"]), mode="mc", tiers=("thorough",))
     add("wrapfail-4", wrap2, 4, _all(["i", "o"]), fails=["i"], mode="mc", tiers=("thorough",))
-    add("chain-4", chain3, 4, [("deploy", "c"), ("undeploy", "c"), ("undeploy", "b"), ("undeploy", "a"), ("uall", LOCALN)],
-        mode="mc", tiers=("thorough",))
     add("lazy-4", {"a": _dep(lazy=True)}, 4, _all(["a"], KINDS), mode="mc", tiers=("thorough",))
     only = os.environ.get("C26_ONLY")          # debugging aid: comma separated scenario names
     if only:
@@ -392,7 +400,35 @@ def signature(world, clause, info, post):
 # ------------------------------------------------------------------------------------------------
 # lock-step replay of one behaviour on the real manager
 # ------------------------------------------------------------------------------------------------
+class _Watchdog(Exception):
+    pass
+
+
+def _alarm(signum, frame):
+    raise _Watchdog()
+
+
 def replay_path(ctx, scn, fixes, path, report=True, label=""):
+    """Watchdog: one loop handle of the code under test that does not come back within 60 s (busy loop) is reported as
+    a divergence; the model never predicts that."""
+    import signal
+    import threading as _th
+    use_alarm = _th.current_thread() is _th.main_thread()
+    if use_alarm:
+        old = signal.signal(signal.SIGALRM, _alarm)
+        signal.setitimer(signal.ITIMER_REAL, 60 + len(path))
+    try:
+        return _replay_path(ctx, scn, fixes, path, label)
+    except _Watchdog:
+        return {"divergence": {"field": "watchdog:handle-does-not-return", "act": ["Step"], "step": -1}, "violations": [],
+                "clauses": set(), "steps": 0}
+    finally:
+        if use_alarm:
+            signal.setitimer(signal.ITIMER_REAL, 0)
+            signal.signal(signal.SIGALRM, old)
+
+
+def _replay_path(ctx, scn, fixes, path, label=""):
     """path: [(action, expected_projection or None, expected_clause_set or None)].
     -> {"divergence": None | {...}, "violations": [(signature, detail)], "clauses": set()}"""
     from vh.sut import deploy_sut as ds
@@ -418,8 +454,9 @@ def replay_path(ctx, scn, fixes, path, report=True, label=""):
                 res["divergence"] = {"field": "exception:%s" % type(e).__name__, "act": act, "step": len(acts), "error": repr(e)}
                 break
             if not ok:
-                res["divergence"] = {"field": "not-enabled", "act": act, "step": len(acts),
-                                     "real": {"tasks": pre["tasks"], "nready": pre["nready"]}}
+                if res["divergence"] is None:
+                    res["divergence"] = {"field": "not-enabled", "act": act, "step": len(acts),
+                                         "real": {"tasks": pre["tasks"], "nready": pre["nready"]}}
                 break
             post = w.project()
             res["steps"] += 1
@@ -438,13 +475,13 @@ def replay_path(ctx, scn, fixes, path, report=True, label=""):
             if exp is not None and res["divergence"] is None:
                 f = ds.diff(post, exp)
                 if f is not None:
+                    # the code has left the specification: keep applying the environment's actions while they are possible,
+                    # without comparing, so that the statement's clauses are still judged on what the code really does
                     res["divergence"] = {"field": f, "act": act, "step": len(acts), "real": post[f], "model": exp[f],
-                                         "actor": _actor(post, pre, act)}
-                    break
-                if expv is not None and set(expv) != set(cl):
+                                         "actor": _actor(post, pre, act), "actions": list(acts)}
+                elif expv is not None and set(expv) != set(cl):
                     res["divergence"] = {"field": "clauses", "act": act, "step": len(acts), "real": sorted(cl), "model": sorted(expv),
                                          "actor": "judge"}
-                    break
             pre = post
     finally:
         w.close()
@@ -549,11 +586,15 @@ def check_variant(ctx, fixes, scns, final):
         files = mc_files(scn, fixes)
         res = {}
         if scn["mode"] == "edges":
-            res["gen"] = ctx.tlc("Deployment", "MC_Deployment", "Gen.cfg", files=files, workers=1, timeout=1500, count=True)
+            res["gen"] = _tlc(ctx, "Gen.cfg", files, workers=1, timeout=1500, count=True)
             if ctx.quick:
                 return res          # the clauses are evaluated by TLC on every transition of the complete graph (ViolSet)
-        res["mc"] = ctx.tlc("Deployment", "MC_Deployment", "MC.cfg", files=files, timeout=2400, coverage=(scn["mode"] == "mc"),
-                            count=(scn["mode"] == "mc"))
+        if scn["mode"] == "mc":
+            # the whole space (only the model's sanity invariant, so that TLC does not stop at a known defect) ...
+            files["Full.cfg"] = files["MC.cfg"].split("NEXT Next\n")[0] + "NEXT Next\nINVARIANT ModelOK\n"
+            res["full"] = _tlc(ctx, "Full.cfg", files, timeout=3000, coverage=True, count=True)
+        # ... and the clauses (TLC stops at the first violated one; thorough: one run per clause afterwards)
+        res["mc"] = _tlc(ctx, "MC.cfg", files, timeout=3000, count=False)
         return res
 
     with ThreadPoolExecutor(max_workers=ctx.pick(3, 4) if final else 1) as ex:
@@ -563,6 +604,11 @@ def check_variant(ctx, fixes, scns, final):
                 res = jobs[scn["name"]].result()
                 mc = res.get("mc")
                 flagged = set()
+                if "full" in res:
+                    full = res["full"]
+                    ctx.require(full.ok, "exhaustive exploration of %s failed: %s %s\n%s" % (scn["name"], full.error, full.violated, full.stdout[-1200:]))
+                    ctx.require_coverage(full, ["Start", "IODone", "Step"])
+                    out.setdefault("graph_sizes", {})[scn["name"]] = [full.distinct, full.generated, 0]
                 if mc is not None:
                     ctx.require(mc.error in (None, "invariant", "property"), "TLC failed on %s: %s\n%s" % (scn["name"], mc.error, mc.stdout[-1500:]))
                     ctx.require("ModelOK" not in mc.violated, "model sanity invariant ModelOK violated in %s" % scn["name"])
@@ -613,12 +659,12 @@ def check_variant(ctx, fixes, scns, final):
                     d = ctx.scratch("sim_%s_%s" % (scn["name"], "".join(sorted(fixes))))
                     files = mc_files(scn, fixes)
                     files["Sim.cfg"] = files["Gen.cfg"].replace("NEXT GenNext", "NEXT Next")
-                    sim = ctx.tlc("Deployment", "MC_Deployment", "Sim.cfg", files=files, workers=1, count=False, timeout=900,
+                    sim = _tlc(ctx, "Sim.cfg", files, workers=1, count=False, timeout=900,
                                   simulate={"num": num, "depth": depth, "file": os.path.join(d, "b")})
-                    from vh import tlc as _tlc
+                    from vh import tlc as vtlc
                     n = 0
                     for fn in sorted(os.listdir(d)):
-                        beh = _tlc.parse_sim_file(os.path.join(d, fn))
+                        beh = vtlc.parse_sim_file(os.path.join(d, fn))
                         states = [_norm(b["state"]["S"]) for b in beh]
                         if len(states) < 2:
                             continue
@@ -634,34 +680,98 @@ def check_variant(ctx, fixes, scns, final):
 
 
 def per_property_counterexamples(ctx, fixes, scns, out):
-    """thorough: one TLC run per clause and scenario, so that every violated clause yields its own (shortest)
-    counterexample, each replayed on the code."""
-    def job(scn, prop):
+    """thorough, large scenarios: TLC stops at the first violated clause, so the check is repeated without the clauses
+    already found violated until the remaining ones hold on the whole space: every violated clause yields its own
+    counterexample (replayed on the code), and the clauses that hold are checked exhaustively."""
+    def job(scn):
+        found = []
+        viol = [v for v in out["model_violated"].get(scn["name"], []) if v != "ModelOK"]
         files = mc_files(scn, fixes)
-        files["One.cfg"] = one_prop_cfg(files, prop)
-        return ctx.tlc("Deployment", "MC_Deployment", "One.cfg", files=files, timeout=2400, count=False)
-    todo = []
-    for scn in scns:
-        viol = out["model_violated"].get(scn["name"], [])
-        if not viol:
-            continue
-        for prop in INVARIANTS[1:] + ACTIONPROPS:
-            if prop not in viol:
-                todo.append((scn, prop))
-    with ThreadPoolExecutor(max_workers=4) as ex:
-        futs = [(scn, prop, ex.submit(job, scn, prop)) for scn, prop in todo]
-        for scn, prop, f in futs:
-            mc = f.result()
-            if mc.trace and mc.violated:
+        while viol:
+            left = [p for p in INVARIANTS[1:] + ACTIONPROPS if p not in viol]
+            base = files["MC.cfg"].split("NEXT Next\n")[0] + "NEXT Next\nINVARIANT ModelOK\n"
+            files["Rest.cfg"] = base + "".join(("INVARIANT %s\n" if p in INVARIANTS else "PROPERTY %s\n") % p for p in left)
+            mc = _tlc(ctx, "Rest.cfg", files, timeout=3000, count=False)
+            if not (mc.trace and mc.violated):
+                break
+            found.append(mc)
+            viol = viol + list(mc.violated)
+        return found
+    todo = [s for s in scns if s["mode"] == "mc" and out["model_violated"].get(s["name"])]
+    with ThreadPoolExecutor(max_workers=3) as ex:
+        futs = [(scn, ex.submit(job, scn)) for scn in todo]
+        for scn, f in futs:
+            for mc in f.result():
                 states = [st["state"]["S"] for st in mc.trace]
-                r = replay_path(ctx, scn, fixes, trace_to_path(states), label="counterexample:%s" % prop)
+                lab = "counterexample:%s" % ",".join(mc.violated)
+                r = replay_path(ctx, scn, fixes, trace_to_path(states), label=lab)
                 ctx.count("counterexamples_replayed")
                 out["paths"] += 1
                 out["steps"] += r["steps"]
                 out["violations"] += r["violations"]
                 if r["divergence"] is not None:
-                    out["divergences"].append((scn, dict(r["divergence"], scenario=scn["name"], label="counterexample:%s" % prop), "counterexample"))
+                    out["divergences"].append((scn, dict(r["divergence"], scenario=scn["name"], label=lab), "counterexample"))
+                else:
+                    want = {k for k, v in CLAUSES.items() if v in mc.violated}
+                    ctx.require(want <= r["clauses"], "TLC counterexample for %s in %s was followed by the code but the judge did "
+                                "not flag it (%s)" % (mc.violated, scn["name"], sorted(r["clauses"])))
                 out["model_violated"][scn["name"]] = sorted(set(out["model_violated"][scn["name"]]) | set(mc.violated))
+
+
+def _drive(scn, acts):
+    from vh.sut import deploy_sut as ds
+    w = ds.World(scn)
+    try:
+        for a in acts:
+            if a[0] == "S":
+                w.start(a[1], a[2], a[3])
+            elif a[0] == "IO":
+                w.io_done(a[1])
+            elif a[0] == "step":
+                w.step()
+                continue
+            elif a[0] == "nodrain":
+                continue
+            if a[-1] == "hold":
+                continue
+            n = 0
+            while w.step() and n < 1000:
+                n += 1
+        return w.project()
+    finally:
+        w.close()
+
+
+def probe_variant():
+    """Which repairs does the code contain?  One fixed behaviour per repair, with an observation that only that repair
+    changes.  (Only a hint: the variant is verified afterwards by the conformance check on every scenario.)"""
+    one = {"deps": {"a": _dep()}}
+    wrap2 = {"deps": {"i": _dep(), "o": _dep("wrapper", "i")}}
+    fixes = set()
+    try:
+        p = _drive(dict(wrap2, fails=["i"]), [("S", 1, "deploy", "o"), ("S", 2, "deploy", "o"), ("IO", 1)])
+        if p["tasks"].get("2", {}).get("result") == "err":
+            fixes.add("A")
+        p = _drive(one, [("S", 1, "deploy", "a"), ("IO", 1), ("S", 2, "undeploy", "a"), ("S", 3, "deploy", "a"), ("IO", 2), ("S", 4, "deploy", "a")])
+        if p["tasks"].get("4", {}).get("result") == "-":
+            fixes.add("B")
+        p = _drive(dict(one, fails=["a"]), [("S", 1, "deploy", "a"), ("S", 2, "undeploy", "a"), ("IO", 1)])
+        if p["tasks"].get("2", {}).get("result") == "ok":
+            fixes.add("C")
+        p = _drive(one, [("S", 1, "deploy", "a", "hold"), ("S", 2, "deploy", "a"), ("IO", 1, "hold"), ("S", 3, "undeploy", "a", "hold"),
+                         ("S", 4, "deploy", "a")])
+        if p["tasks"].get("2", {}).get("result") == "-":
+            fixes.add("D")
+        p = _drive(wrap2, [("S", 1, "deploy", "o"), ("IO", 1), ("IO", 1), ("S", 2, "undeploy", "o"), ("S", 3, "deploy", "o"), ("IO", 2)])
+        if p["conn"] and p["conn"][0]["state"] == "deployed" and p["tasks"].get("2", {}).get("result") == "ok":
+            fixes.add("E")
+        p = _drive(dict(wrap2, fails=["o"]), [("S", 1, "deploy", "o"), ("IO", 1), ("IO", 1)])
+        sid = p["gobj"].get("i", 0)
+        if sid and p["sets"][sid - 1] == [] and p["tasks"].get("1", {}).get("result") == "err":
+            fixes.add("F")
+    except Exception:       # a tree on which the probes crash is judged against the as-is specification
+        return set()
+    return fixes
 
 
 def run(ctx):
@@ -671,22 +781,18 @@ def run(ctx):
                 "every action the projected real state is compared with the model state and the statement's clauses are judged on "
                 "the real observation; a case is one replayed behaviour, non-trivial when it contains a suspension")
     scns = scenarios(ctx)
-    # which variant of the specification does the code implement?  (as-is first; decided on the small probe scenarios)
+    # which variant of the specification does the code implement?  Each repair has one discriminating behaviour that is run
+    # directly on the code (no TLC); the variant found is then verified by the complete conformance check below.
+    fixes = probe_variant()
+    ctx.extra["probed_variant"] = sorted(fixes)
     probes = [s for s in scns if s["probe"]] or scns[:1]
     rest = [s for s in scns if s not in probes]
-    # as-is, all repairs, all but one, single ones (a partial repair outside this list is reported as a divergence)
-    candidates = [(), ALL_FIXES] + [c for n in (len(ALL_FIXES) - 1, 1) for c in itertools.combinations(ALL_FIXES, n)]
-    chosen = None
-    for fixes in candidates:
-        out = check_variant(ctx, set(fixes), probes, final=False)
-        if not out["divergences"]:
-            chosen = out
-            break
+    chosen = check_variant(ctx, set(fixes), probes, final=True)
+    if chosen["divergences"] and fixes:
         ctx.count("variants_rejected")
-    if chosen is None:
-        # no variant explains the code: report against the as-is specification
-        chosen = check_variant(ctx, set(), probes, final=True)
-        ctx.extra["no_variant_conforms"] = True
+        asis = check_variant(ctx, set(), probes, final=True)
+        if len(asis["divergences"]) <= len(chosen["divergences"]):
+            chosen = asis
     more = check_variant(ctx, set(chosen["fixes"]), rest, final=True) if rest else None
     if more is not None:
         for k in ("divergences", "violations"):
@@ -734,5 +840,25 @@ def replay(ctx, data):
             ctx.violation(sig, det, "%s violated on the real manager" % det["clause"])
         if r["divergence"] is not None:
             ctx.violation("conformance:%s:replay" % r["divergence"]["field"], {"divergence": r["divergence"]}, "behaviour cannot be followed")
+    elif "divergence" in d and "actions" in d["divergence"]:
+        # conformance: re-run the prefix on the code and compare the diverging field with the model's value
+        from vh.sut import deploy_sut as ds
+        dv = d["divergence"]
+        w = ds.World(d["scenario"])
+        try:
+            ok = True
+            for a in dv["actions"]:
+                if a[0] == "Start":
+                    w.start(int(a[1]), a[2], a[3])
+                elif a[0] == "IODone":
+                    ok = w.io_done(int(a[1])) and ok
+                else:
+                    ok = w.step() and ok
+            got = json.loads(json.dumps(w.project()[dv["field"]])) if dv["field"] in ds.FIELDS else None
+        finally:
+            w.close()
+        if not ok or got != dv["model"]:
+            ctx.violation("conformance:%s:replay" % dv["field"], {"divergence": dv, "real": got},
+                          "after the stored actions the real %s is %s, the specification says %s" % (dv["field"], got, dv["model"]))
     else:
         run(ctx)
